@@ -21,19 +21,52 @@ ASSUMPTIONS = ["rules 11-12 (interface counts of L2PTP / PortMirror) are slice-v
                "remove_link is only applied to links created by add_link",
                "name-keyed views (dicts) are required to contain every element name and only existing elements"]
 BUDGET = {"quick": 900, "thorough": 25000}
-MIN_LABEL_FRACTION = {"nontrivial": 0.25, "substrate": 0.3, "has-connected": 0.4, "has-removal": 0.4}
+MIN_LABEL_FRACTION = {"nontrivial": 0.08, "substrate": 0.12, "has-connected": 0.15, "has-removal": 0.15}
 
-ALLOWED_CLASS = {"ConnectionPoint", "NetworkNode", "CompositeNode", "NetworkService", "Component", "Link"}
-ALLOWED_TYPES = {
-    "NetworkNode": {"Server", "Switch", "VM", "Container", "NAS", "Facility"},
-    "Component": {"SmartNIC", "GPU", "FPGA", "NVME", "SharedNIC", "Storage"},
-    "ConnectionPoint": {"AccessPort", "TrunkPort", "ServicePort", "DedicatedPort", "SharedPort", "vInt",
-                        "FacilityPort", "SubInterface", "StitchPort"},
-    # published rule 7 plus L2Multisite (see KNOWN_FINDINGS / DESIGN.md: the published list lagged the enum)
-    "NetworkService": {"P4", "OVS", "MPLS", "VLAN", "L2Path", "L2Bridge", "L2PTP", "L2STS", "FABNetv4", "FABNetv6",
-                       "FABNetv4Ext", "FABNetv6Ext", "L3VPN", "PortMirror"},
-    "Link": {"L1Path", "L2Path", "Patch"},
-}
+_VOCAB = None
+
+
+def published_vocabulary():
+    """Class / Type vocabularies of published rules 3-8, read from the repository's graph_validation_rules.json
+    (the rules are the library's published ones; the structural rules 1, 2, 9, 10, 13 are transliterated below)."""
+    global _VOCAB
+    if _VOCAB is None:
+        import json
+        import os
+        import re
+        import fim.graph.data as d
+        path = os.path.join(os.path.dirname(d.__file__), "graph_validation_rules.json")
+        rules = json.load(open(path, encoding="utf-8"))
+        vocab = {}
+        for r in rules:
+            m = re.search(r"MATCH \(n:(\w+) \{GraphID: \$graphId\}\) RETURN ALL\(r IN collect\(n\) WHERE r\.(Class|Type) IN "
+                          r"\[(.*?)\]\)", r["rule"])
+            if m:
+                vals = set(re.findall(r'"([^"]+)"', m.group(3)))
+                vocab[("Class" if m.group(2) == "Class" else m.group(1))] = vals
+        for need in ("Class", "NetworkNode", "Component", "ConnectionPoint", "NetworkService", "Link"):
+            if need not in vocab or not vocab[need]:
+                raise RuntimeError(f"could not read the vocabulary for {need} from {path}")
+        _VOCAB = vocab
+    return _VOCAB
+
+
+# exclusion by construction behind known findings (DESIGN.md §1.7): regions switched off in the generated programs
+# because a recorded finding makes every program that enters them stop there. Probes (PROBES) run with no exclusion.
+def _exclusions():
+    from fimverif.runner import load_known
+    keys = load_known(ID)[0]
+    ex = set()
+    if any(k.startswith("C07/names/") and k.endswith("/rename") for k in keys):
+        ex.add("rename-collide")
+    if any(k.startswith("C07/rule13-serviceport-peer/") for k in keys):
+        ex.add("dangling-sp")
+    if any(k.startswith("C07/names/link-artefact") or k.startswith("C07/names/serviceport-artefact") for k in keys):
+        ex.add("artefact-name")
+    return tuple(sorted(ex))
+
+
+EXCLUDE = _exclusions()
 
 
 @st.composite
@@ -61,14 +94,12 @@ def structural_violations(s):
             if d.get(k) is None:
                 out.append(("rule1-mandatory-properties", f"node {i} lacks {k}"))
         c, t = d.get("Class"), d.get("Type")
-        if c not in ALLOWED_CLASS:
+        vocab = published_vocabulary()
+        if c not in vocab["Class"]:
             out.append(("rule3-class-vocabulary", f"node {i} has Class {c!r}"))
-        elif c in ALLOWED_TYPES and t not in ALLOWED_TYPES[c]:
-            if c == "NetworkService" and t == "L2Multisite":
-                out.append(("rule7-service-type/L2Multisite", f"service {i} has Type L2Multisite, which the published "
-                                                              f"rule 7 does not list"))
-            else:
-                out.append((f"rule-type-vocabulary/{c}", f"node {i} [{c}] has Type {t!r}"))
+        elif c in vocab and t not in vocab[c]:
+            out.append((f"rule-type-vocabulary/{c}/{t}", f"node {i} [{c}] has Type {t!r}, which the published rule "
+                                                         f"does not list"))
     for a, nb in s.adj.items():
         for b, r in nb.items():
             if r not in ("has", "connects"):
@@ -85,7 +116,7 @@ def structural_violations(s):
         if s.typ(cp) == "ServicePort":
             npeers = sum(1 for l in s.links_of_cp(cp) for e in s.ends_of_link(l) if e != cp)
             if npeers != 1:
-                out.append(("rule13-serviceport-peer", f"service port {cp} {s.name(cp)!r} has {npeers} peers"))
+                out.append(("rule13-serviceport-peer", f"service port <{cp}> {s.name(cp)!r} has {npeers} peers"))
         if s.is_sub(cp):
             ps, sv = s.parent_cp(cp), s.service_of_cp(cp)
             if len(ps) != 1 or sv:
@@ -110,7 +141,13 @@ def structural_violations(s):
     if dup(s.ids("NetworkNode")):
         out.append(("names/node", f"node names not unique: {dup(s.ids('NetworkNode'))}"))
     if dup(s.ids("Link")):
-        out.append(("names/link", f"link names not unique: {dup(s.ids('Link'))}"))
+        # peering artefacts (ServicePort + Link made by connect/peer) are named by the library
+        made = getattr(s, "made_links", set())
+        dn = set(dup(s.ids("Link")))
+        if all(l not in made for l in s.ids("Link") if s.name(l) in dn):
+            out.append(("names/link-artefact", f"library-generated peering link names collide: {sorted(dn)}"))
+        else:
+            out.append(("names/link", f"link names not unique: {sorted(dn)}"))
     if dup(s.top_services()):
         out.append(("names/top-level-service", f"service names not unique: {dup(s.top_services())}"))
     for n in s.ids("NetworkNode"):
@@ -123,7 +160,12 @@ def structural_violations(s):
             out.append(("names/service-in-component", f"component {s.name(c)!r}: {dup(s.services_of(c))}"))
     for sv in s.ids("NetworkService"):
         if dup(s.cps_of_service(sv)):
-            out.append(("names/interface-in-service", f"service {s.name(sv)!r}: {dup(s.cps_of_service(sv))}"))
+            dn = set(dup(s.cps_of_service(sv)))
+            if all(s.typ(cp) == "ServicePort" for cp in s.cps_of_service(sv) if s.name(cp) in dn):
+                out.append(("names/serviceport-artefact", f"library-generated service port names collide in "
+                                                          f"service {s.name(sv)!r}: {sorted(dn)}"))
+            else:
+                out.append(("names/interface-in-service", f"service {s.name(sv)!r}: {sorted(dn)}"))
     for cp in s.ids("ConnectionPoint"):
         if dup(s.children_cp(cp)):
             out.append(("names/sub-interface-in-parent", f"interface {s.name(cp)!r}: {dup(s.children_cp(cp))}"))
@@ -221,12 +263,13 @@ def readonly_violations(t, s):
 
 
 def run_case(case):
-    it = topo.Interp(case["flavour"])
+    it = topo.Interp(case["flavour"], exclude=case.get("exclude", EXCLUDE))
     v = []
     labels = {case["flavour"]}
     n_add = 0
     nt = False
     connected_seen = False
+    prev = None
     try:
         for step, op in enumerate(case["prog"]):
             r = it.apply(op)
@@ -238,7 +281,12 @@ def run_case(case):
             if r["raised"] is not None:
                 labels.add("has-failing-call")
             s = it.snap()
+            s.made_links = it.made_links
             viols = structural_violations(s)
+            # narrow rule-13 signatures to the root cause: what was the peerless ServicePort peered with before?
+            viols = [((c + "/" + _sp_kind(prev, m)) if c == "rule13-serviceport-peer" and prev is not None else c, m)
+                     for c, m in viols]
+            prev = s
             if not viols:
                 try:
                     viols = view_violations(it.topo, s)
@@ -251,7 +299,13 @@ def run_case(case):
                     if clause in seen:
                         continue
                     seen.add(clause)
-                    v.append((f"C07/{clause}/{kind}" + ("/raised" if r["raised"] is not None else ""),
+                    if "artefact" in clause:
+                        sig = f"C07/{clause}"
+                    elif clause.startswith("rule13-serviceport-peer/"):
+                        sig = f"C07/rule13-serviceport-peer/{kind}/{clause.split('/', 1)[1]}"
+                    else:
+                        sig = f"C07/{clause}/{kind}" + ("/raised" if r["raised"] is not None else "")
+                    v.append((sig,
                               f"step {step} {outcome} {op}: {msg} | flavour={case['flavour']} "
                               f"prog={json_short(case['prog'][:step + 1])}"))
                 break
@@ -273,7 +327,22 @@ def run_case(case):
         it.close()
     if nt:
         labels.add("nontrivial")
+    for k in it.excluded:
+        labels.add("excluded-known:" + k)
     return {"v": v, "nt": nt, "labels": sorted(labels)}
+
+
+def _sp_kind(prev, msg):
+    import re
+    m = re.search(r"service port <(.*?)>", msg)
+    if not m or m.group(1) not in prev.nodes:
+        return "new-port"
+    peers = prev.peers_of_cp(m.group(1))
+    if any(prev.is_sub(p) for p in peers):
+        return "peer-was-sub-interface"
+    if any(prev.typ(p) == "ServicePort" for p in peers):
+        return "peer-was-service"
+    return "peer-was-interface" if peers else "no-peer-before"
 
 
 def json_short(x):
